@@ -125,10 +125,13 @@ class CtxFacts:
 class PEngine:
     state_limit = 400000
 
-    def __init__(self, F, root="syntax::parser::module"):
+    def __init__(self, F, root="syntax::parser::module", singletons=False):
         self.F = F
         self.pure = Pure(F)
         self.root = root
+        # exhaustive mode: split the kind set into single kinds at every first question about a new
+        # token instead of refining it by partition (slow; used as a cross-check in the thorough tier)
+        self.singletons = singletons
         a = F.adt(SK)
         self.all_kinds = [v["name"] for v in a["variants"]]
         va = F.units["syntax-rlib"].get("variant_attrs", [])
@@ -521,6 +524,8 @@ class PEngine:
             return self.split((bb, S, envt, prog, since0, la, marks, ntok, nodes, brace_open), groups.values())
 
         leaf = name[len(PARSER):] if name.startswith(PARSER) and name[len(PARSER):] in LEAVES else None
+        if self.singletons and len(S) > 1 and (leaf in ("nth", "eof", "bump") or leaf is None):
+            return self.split((bb, S, envt, prog, since0, la, marks, ntok, nodes, brace_open), [[k2] for k2 in sorted(S)])
         if leaf == "nth":
             la2 = la + 1
             if prog or is_root:
